@@ -11,7 +11,7 @@ import (
 
 func init() {
 	register("C03", propMeta{
-		Explanation: "E-GUARD + E-PROV + E-CONST. O-1 pool selection: AddSnowflake pushes to the heap loaded from field 'snowflakes' exactly on the natType == NATUnrestricted edge (else restrictedSnowflakes); the poll-timeout branch removes from the heap chosen by the same mapping on the same NAT value (sibling agreement); matchSnowflake pops from restrictedSnowflakes exactly on the client-NAT == NATUnrestricted edge, else from snowflakes (the complement). O-2 NAT vocabulary: the NAT constants of broker, common/nat and proxy/lib are equal, and both decoders accept exactly {\"\", unknown, restricted, unrestricted}, map \"\" to unknown, and reject everything else with an error. O-3 refusal only when the eligible pool is empty: matchSnowflake returns nil only through the false edge of Len() > 0 on the selected heap, test and pop in one critical section; ClientOffers answers 'no proxies' only when matchSnowflake returned nil. O-4 load order: Less compares the clients counts of its two arguments with strict <, clients never changes while queued, Swap/Push/Pop maintain index. Every clause is necessary: e.g. swapping the heaps in one branch gives a restricted client a restricted proxy. Added after the second seeding round: O-4 also requires that Push/Pop/Swap of SnowflakeHeap have no static caller (container/heap only); O-6 the legacy client format takes its NAT type from Header.Get(\"Snowflake-NAT-Type\") and hands it to the shared handler; O-7/C04 the deregistration obligations of C04 (a proxy leaves the pool it was put in on exactly the unclaimed edge). Added after the third seeding round: the guarded-by rows of the matching state are evaluated here too (O-6/C03); the goroutine started per poll captures only per-iteration variables (language version of go.mod taken into account); the NAT vocabulary may be a constant lookup table (keys = vocabulary, values = mapping) instead of comparisons. Added after the fourth seeding round: Less may consult any other criterion only behind the edge on which the two client counts are equal; Swap is judged by which element ends up in which slot, not by the spelling of the exchange.",
+		Explanation: "E-GUARD + E-PROV + E-CONST. O-1 pool selection: AddSnowflake pushes to the heap loaded from field 'snowflakes' exactly on the natType == NATUnrestricted edge (else restrictedSnowflakes); the poll-timeout branch removes from the heap chosen by the same mapping on the same NAT value (sibling agreement); matchSnowflake pops from restrictedSnowflakes exactly on the client-NAT == NATUnrestricted edge, else from snowflakes (the complement). O-2 NAT vocabulary: the NAT constants of broker, common/nat and proxy/lib are equal, and both decoders accept exactly {\"\", unknown, restricted, unrestricted}, map \"\" to unknown, and reject everything else with an error. O-3 refusal only when the eligible pool is empty: matchSnowflake returns nil only through the false edge of Len() > 0 on the selected heap, test and pop in one critical section; ClientOffers answers 'no proxies' only when matchSnowflake returned nil. O-4 load order: Less compares the clients counts of its two arguments with strict <, clients never changes while queued, Swap/Push/Pop maintain index. Every clause is necessary: e.g. swapping the heaps in one branch gives a restricted client a restricted proxy. Added after the second seeding round: O-4 also requires that Push/Pop/Swap of SnowflakeHeap have no static caller (container/heap only); O-6 the legacy client format takes its NAT type from Header.Get(\"Snowflake-NAT-Type\") and hands it to the shared handler; O-7/C04 the deregistration obligations of C04 (a proxy leaves the pool it was put in on exactly the unclaimed edge). Added after the third seeding round: the guarded-by rows of the matching state are evaluated here too (O-6/C03); the goroutine started per poll captures only per-iteration variables (language version of go.mod taken into account); the NAT vocabulary may be a constant lookup table (keys = vocabulary, values = mapping) instead of comparisons. Added after the fourth seeding round: Less may consult any other criterion only behind the edge on which the two client counts are equal; Swap is judged by which element ends up in which slot, not by the spelling of the exchange. Added after the fifth seeding round: O-5b isRestrictedMapping compares address and port of the two mapped addresses (their String(), or IP and Port).",
 		NotDecided:  "correctness of container/heap, fairness between simultaneous clients, the outcome of arbitrary concurrent histories beyond 'each client pops the current minimum of its eligible pool under the lock'.",
 		Assumptions: []string{"container/heap maintains the heap order given a correct heap.Interface"},
 	}, runC03)
@@ -107,6 +107,7 @@ func runC03(c *Ctx) {
 	for _, fn := range broker {
 		c.analysedFn(p.FnName(fn))
 	}
+	c.checkMappingTest()
 	rule1 := "O-1 pool selection"
 	// proxy side: push and timeout-remove use unrestricted -> snowflakes
 	proxySide := map[string]string{"yes": "snowflakes", "no": "restrictedSnowflakes"}
@@ -1038,4 +1039,85 @@ func globalConstStringMap(p *Prog, g *ssa.Global) (map[string]string, bool) {
 		}
 	}
 	return out, len(out) > 0
+}
+
+// checkMappingTest: the client's and proxy's NAT measurement calls a mapping
+// "address dependent" (restricted) when the two XOR-MAPPED-ADDRESS answers
+// differ in address OR port: the verdict compares the whole mapped addresses
+// (their String(), or both IP and Port), not one component. A NAT that keeps the
+// port and changes the address is otherwise measured as unrestricted and the
+// client is served from the pool of restricted proxies.
+func (c *Ctx) checkMappingTest() {
+	p := c.P
+	rule := "O-5b the NAT measurement compares whole mapped addresses"
+	fn := p.Fn("common/nat", "isRestrictedMapping")
+	if fn == nil {
+		c.undecided(rule, "common/nat.isRestrictedMapping", "-", "anchor does not resolve")
+		return
+	}
+	c.analysedFn(p.FnName(fn))
+	n := 0
+	for _, r := range returnsOf(fn) {
+		if len(r.Results) != 2 || !retMayBeNil(r, 1) {
+			continue
+		}
+		n++
+		usesIP, usesPort, usesString := false, false, false
+		seen := map[ssa.Value]bool{}
+		var walk func(v ssa.Value, d int)
+		walk = func(v ssa.Value, d int) {
+			if v == nil || seen[v] || d > 8 {
+				return
+			}
+			seen[v] = true
+			if cc, _, ok := callResult(v); ok {
+				cn := calleeName(cc)
+				if strings.HasSuffix(cn, "XORMappedAddress).String") || strings.HasSuffix(cn, "net.UDPAddr).String") {
+					usesString = true
+				}
+				if strings.HasSuffix(cn, "net.IP).Equal") || strings.HasSuffix(cn, "net.IP).String") {
+					usesIP = true
+				}
+				for _, a := range callArgs(cc) {
+					walk(a, d+1)
+				}
+				return
+			}
+			if _, f, ok := fieldLoad(v); ok {
+				switch f.Name() {
+				case "IP":
+					usesIP = true
+				case "Port":
+					usesPort = true
+				}
+				return
+			}
+			switch x := v.(type) {
+			case *ssa.BinOp:
+				walk(x.X, d+1)
+				walk(x.Y, d+1)
+			case *ssa.UnOp:
+				walk(x.X, d+1)
+			case *ssa.Phi:
+				for _, e := range x.Edges {
+					walk(e, d+1)
+				}
+				// a merged boolean (a || b): the conditions that select the edges count too
+				for _, pb := range x.Block().Preds {
+					if ifi, isIf := pb.Instrs[len(pb.Instrs)-1].(*ssa.If); isIf {
+						walk(ifi.Cond, d+1)
+					}
+				}
+			case *ssa.Convert:
+				walk(x.X, d+1)
+			case *ssa.ChangeType:
+				walk(x.X, d+1)
+			}
+		}
+		walk(retVal(r, 0), 0)
+		c.check(usesString || (usesIP && usesPort), rule, "isRestrictedMapping compares address and port of the two mappings", p.instrPos(r), "", "the verdict depends on only one component of the mapped address (or on neither): a NAT that changes the other component is measured as unrestricted")
+	}
+	if n == 0 {
+		c.undecided(rule, "isRestrictedMapping verdict", p.Pos(fn.Pos()), "no success return found")
+	}
 }
